@@ -341,6 +341,11 @@ func genC20Req(t *rapid.T) c20Req {
 	return r
 }
 
+// c20UserReader is a reader type of the caller's own.
+type c20UserReader struct{ r io.Reader }
+
+func (u c20UserReader) Read(p []byte) (int, error) { return u.r.Read(p) }
+
 // c20BrokenWriter is a ResponseWriter whose Write always fails.
 type c20BrokenWriter struct {
 	h       http.Header
@@ -379,6 +384,13 @@ func propC20HTTP(t *rapid.T) {
 			req.Body = io.NopCloser(strings.NewReader(r.Body))
 			req.ContentLength = -1
 			req.TransferEncoding = []string{"chunked"}
+		}
+		if r.Body != "" && rapid.IntRange(0, 4).Draw(t, "bodyIsUserReader") == 0 {
+			// a request built by hand around a reader of the caller's own (metering, decompressing, a pipe): net/http
+			// leaves ContentLength at 0 for such bodies, which then means "unknown", not "none"
+			req.Body = io.NopCloser(c20UserReader{strings.NewReader(r.Body)})
+			req.ContentLength = 0
+			req.TransferEncoding = nil
 		}
 		if r.CType != "" {
 			req.Header.Set("Content-Type", r.CType)
